@@ -118,10 +118,10 @@ Ltac use_updop H :=
         change (getop (updop o F s) o' = Some c') in H; apply (ops_of_updop o F s o' c'); [intros ?; repeat split | exact H] end end.
 
 Lemma acct_client s e : acct s ->
-  (match e with ServerSend _ | CliPoll _ | StreamNext _ | StreamFinish _ | Advance _ | ViaHandle _ => True | _ => False end) -> acct (step s e).
+  (match e with ServerSend _ | CliPoll _ | StreamNext _ | StreamFinish _ | Advance _ | ViaHandle _ | DropCall _ => True | _ => False end) -> acct (step s e).
 Proof.
   intros A He. pose proof (step_keyed s e (a_keyed s A)) as HK.
-  destruct e as [k tmo| | | |how|r|o|o|o|dt|o|k tmo|o]; try contradiction; clear He.
+  destruct e as [k tmo| | | |how|r|o|o|o|dt|o|o|k tmo|o]; try contradiction; clear He.
   - (* ServerSend *) apply (acct_same_senders s _ A HK); try reflexivity. intros o c' H. exists c'. now repeat split.
   - (* CliPoll *) revert HK. unfold step. destruct (getop s o) as [c|] eqn:Ec; [|intros; exact A].
     destruct (waiting c); cbn [negb]; [|intros; exact A].
@@ -148,6 +148,8 @@ Proof.
       use_updop H.
   - (* Advance *) apply (acct_same_senders s _ A HK); try reflexivity. intros o c' H. exists c'. now repeat split.
   - (* ViaHandle *) apply (acct_same_senders s _ A HK); try reflexivity. intros o' c' H. exists c'. now repeat split.
+  - (* DropCall *) revert HK. unfold step. destruct (getop s o) as [c|] eqn:Ec; [|intros; exact A]. destruct (o_status c); try (intros; exact A).
+    intros HK; apply (acct_same_senders s _ A HK); try reflexivity; intros o' c' H; use_updop H.
 Qed.
 
 (* ---------- driver actions: the invariant with one operation's sender "in transit" ---------- *)
@@ -705,10 +707,11 @@ Qed.
 
 Theorem acct_step s e : acct s -> (match e with DrvEnd Running => False | _ => True end) -> acct (step s e).
 Proof.
-  intros A He. destruct e as [k tmo| | | |how|r|o|o|o|dt|o|k tmo|o].
+  intros A He. destruct e as [k tmo| | | |how|r|o|o|o|dt|o|o|k tmo|o].
   - now apply acct_start. - now apply acct_drvop. - now apply acct_scrub. - now apply acct_drvresp.
   - apply acct_drvend; [exact A|]. intros ->. exact He.
   - now apply acct_client. - now apply acct_client. - now apply acct_client. - now apply acct_client. - now apply acct_client.
+  - now apply acct_client.
   - now apply acct_client.
   - now apply acct_alloc. - now apply acct_enqueue.
 Qed.
